@@ -100,7 +100,7 @@ def run_inc(c):
         if all(x == 0 for x in p):
             raise Skip("zero point")
         truth = X.dot(h, p) == 0
-        S = (Line if d == 2 else Plane)(f2(h) * s)
+        S = (Line if d == 2 else Plane)(c01.pow2_normalise(f2(h)) * s)
         P = Point(f2(p))
     elif cfg == "point_line3":
         if X.rank(b[:2]) < 2:
@@ -123,7 +123,7 @@ def run_inc(c):
             if all(x == 0 for x in h):
                 raise Skip("zero")
         truth = X.dot(h, b[0]) == 0 and X.dot(h, b[1]) == 0
-        S = Plane(f2(h) * s)
+        S = Plane(c01.pow2_normalise(f2(h)) * s)
         P = Line(Z.plucker_dual([int(x) for x in b[0]], [int(x) for x in b[1]]))
     t = Transformation(tmat(c))
     ck = Checker()
